@@ -328,7 +328,7 @@ def _value_strategy():
 
 
 def shards(tier):
-    per = 1200 if tier == "quick" else 8000
+    per = 1200 if tier == "quick" else 40000
     out = [{"kind": "routes", "n": per, "idx": i} for i in range(12)]
     out += [{"kind": "new", "n": per * 4, "idx": i} for i in range(3)]
     out += [{"kind": "constructions"}]
